@@ -147,6 +147,16 @@ def trio_disconnected_worlds(tier):
                     if distrust:
                         opts["distrust_genotypes"] = True
                     yield mk_trio(seed, 4, vk, menu), opts, [("C", "F", "M")]
+                    if gh and not distrust and menu[0][0] == "C":
+                        # a further sample of the VCF that the PED file does not mention (phased on its own, and before
+                        # the trio: its name sorts first) - what is decided for it must not leak into the family
+                        w = mk_trio(seed, 4, vk, menu)
+                        w["samples"] = ["A0", "F", "M", "C"]
+                        w["haps"]["A0"] = {"chrA": [[0, 1], [1, 0], [0, 1], [1, 0]]}
+                        for sub in ((0, 1), (2, 3)):
+                            for h in (0, 1):
+                                w["reads"].append({"sample": "A0", "chrom": "chrA", "hap": h, "segs": [[sub[0], sub[1], 5, 5]], "link": "N", "n": 1})
+                        yield w, opts, [("C", "F", "M")]
 
 
 def trio_contradicted_worlds(tier):
